@@ -17,6 +17,7 @@
 package stream
 
 import (
+	"github.com/rulego/streamsql/verifhook"
 	"sync/atomic"
 	"time"
 )
@@ -37,6 +38,7 @@ func (s *Stream) startSinkWorkerPool(workerCount int) {
 			for {
 				select {
 				case task := <-s.sinkWorkerPool:
+					verifhook.At("sink.task", s, int64(workerID), 0, 0)
 					// Execute sink task
 					func() {
 						defer func() {
@@ -174,6 +176,7 @@ func (s *Stream) submitSinkTask(sink func([]map[string]any), results []map[strin
 			return
 		default:
 			// Degraded handling under load: execute in the calling goroutine.
+			verifhook.At("sink.inline", s, 0, 0, 0)
 			task()
 		}
 	}
